@@ -34,7 +34,7 @@ var targets = map[string][]string{
 		"TreeNodeInstance.SendTo+cond", "TreeNodeInstance.Broadcast", "TreeNodeInstance.Multicast", "TreeNodeInstance.SendToParent+cond",
 		"TreeNodeInstance.SendToChildren+cond", "TreeNodeInstance.SendToChildrenInParallel"},
 	"treestorage.go": {"treeStorage.Register+cond", "treeStorage.Unregister+cond", "treeStorage.IsRegistered+cond", "treeStorage.IsRequested+cond",
-		"treeStorage.Get", "treeStorage.getAndRefresh", "treeStorage.Set", "treeStorage.Remove", "treeStorage.GetRoster+cond",
+		"treeStorage.Get", "treeStorage.getAndRefresh", "treeStorage.Set", "treeStorage.Remove+cond", "treeStorage.GetRoster+cond",
 		"treeStorage.Close", "treeStorage.cancelDeletion"},
 	"tree.go": {"TreeMarshal.MakeTree+cond", "TreeMarshal.MakeTreeFromList+cond", "Tree.MakeTreeMarshal", "TreeMarshalCopyTree",
 		"NewTree", "NewTreeNode", "NewRoster+cond", "Roster.GenerateBigNaryTree+cond", "Roster.GenerateNaryTreeWithRoot+cond",
